@@ -16,6 +16,7 @@ fn namespaces(snap: &BTreeMap<String, String>) -> BTreeSet<String> {
 }
 
 fn one(rep: &mut Reporter, seed: u64, idx: u64) {
+    rep.case(seed);
     let mut rng = Rng::new(seed);
     let tmp = vcommon::scratch_dir();
     let ndel = 1 + rng.usize(4);
